@@ -77,10 +77,7 @@ func contains(list []controller.Input, x controller.Input) bool {
 // replaces it by another arbitrary valid set: the dependency database, the
 // adapter's access list and the notification lookup all equal the new set.
 func H_UpdateInputs() {
-	max := 2
-	if verif.Tier() == "thorough" {
-		max = 3
-	}
+	max := 2 // thorough: same sizes, but symbolic types and optional IDs (symInputs)
 	ctx := context.Background()
 	db, _ := dependency.NewDatabase()
 	st := state.WrapCore(namespaced.NewState(inmem.Build))
